@@ -826,10 +826,12 @@ impl<B: AsRef<[AtomicUsize]>> AtomicBitVec<B> {
             .for_each(|x| x.store(word_value, ordering));
         if residual != 0 {
             let mask = (1 << residual) - 1;
-            bits[full_words].store(
-                (bits[full_words].load(ordering) & !mask) | (word_value & mask),
-                ordering,
-            );
+            // A single read-modify-write: it accepts every ordering
+            if value {
+                bits[full_words].fetch_or(mask, ordering);
+            } else {
+                bits[full_words].fetch_and(!mask, ordering);
+            }
         }
     }
 
@@ -850,10 +852,12 @@ impl<B: AsRef<[AtomicUsize]>> AtomicBitVec<B> {
             .for_each(|x| x.store(word_value, ordering));
         if residual != 0 {
             let mask = (1 << residual) - 1;
-            bits[full_words].store(
-                (bits[full_words].load(ordering) & !mask) | (word_value & mask),
-                ordering,
-            );
+            // A single read-modify-write: it accepts every ordering
+            if value {
+                bits[full_words].fetch_or(mask, ordering);
+            } else {
+                bits[full_words].fetch_and(!mask, ordering);
+            }
         }
     }
 
@@ -881,8 +885,8 @@ impl<B: AsRef<[AtomicUsize]>> AtomicBitVec<B> {
             .for_each(|x| _ = x.fetch_xor(!0, ordering));
         if residual != 0 {
             let mask = (1 << residual) - 1;
-            let last_word = bits[full_words].load(ordering);
-            bits[full_words].store((last_word & !mask) | (!last_word & mask), ordering);
+            // A single read-modify-write: it accepts every ordering
+            bits[full_words].fetch_xor(mask, ordering);
         }
     }
 
@@ -901,8 +905,8 @@ impl<B: AsRef<[AtomicUsize]>> AtomicBitVec<B> {
             .for_each(|x| _ = x.fetch_xor(!0, ordering));
         if residual != 0 {
             let mask = (1 << residual) - 1;
-            let last_word = bits[full_words].load(ordering);
-            bits[full_words].store((last_word & !mask) | (!last_word & mask), ordering);
+            // A single read-modify-write: it accepts every ordering
+            bits[full_words].fetch_xor(mask, ordering);
         }
     }
 
